@@ -38,7 +38,9 @@ struct Exempt { Exempt() { ++exempt_depth(); } ~Exempt() { --exempt_depth(); } }
 
 struct C19Ctx {
   std::string family = "?";   // family/object kind of the program in flight (part of violation keys)
-  std::string op = "?";       // lifecycle operation in flight (detail only)
+  std::string op = "?";       // lifecycle operation in flight
+  const char* op_lit = "?";   // same, as the string literal it was set from
+  void set_op(const char* lit) { op = lit; op_lit = lit; }
 };
 inline C19Ctx& c19ctx() { static C19Ctx c; return c; }
 inline std::string during() { return "|during-" + c19ctx().op; }
@@ -49,7 +51,7 @@ inline void c19_fail(const std::string& what, const std::string& detail) {
 }
 
 struct Arena {
-  struct Block { size_t bytes; size_t elem; };
+  struct Block { size_t bytes; size_t elem; const char* op; };   // op: operation in flight at allocate (static string)
   int id;
   std::unordered_map<const void*, Block> live;
   std::unordered_map<const void*, size_t> freed;    // released in this case and not handed out again
@@ -84,7 +86,7 @@ inline void* arena_allocate(Arena* a, size_t n, size_t elem) {
   void* p = ::operator new(bytes ? bytes : 1);
   a->freed.erase(p);
   for (Arena* o : all_arenas()) if (o != a) o->freed.erase(p);
-  a->live[p] = Arena::Block{bytes, elem};
+  a->live[p] = Arena::Block{bytes, elem, c19ctx().op_lit};
   a->live_bytes += bytes; a->total_bytes += bytes; a->total_allocs++;
   if (a->live_bytes > a->peak_bytes) a->peak_bytes = a->live_bytes;
   return p;
@@ -120,13 +122,13 @@ inline void arena_deallocate(Arena* a, void* p, size_t n, size_t elem) noexcept 
                (was_freed ? " of a block already released (was " + std::to_string(old) + " bytes)" : " of a block no arena issued"));
       return;   // do not touch the memory
     }
-    c19_fail("alloc|block-returned-to-wrong-arena" + during(),
+    c19_fail(std::string("alloc|block-returned-to-wrong-arena|block-allocated-in-") + it->second.op,
              "block of " + std::to_string(it->second.bytes) + " bytes issued by arena " + std::to_string(owner->id) +
              " was deallocated through an allocator of arena " + std::to_string(a->id));
   }
   checked();
   if (it->second.bytes != bytes) {
-    c19_fail("alloc|deallocate-size-mismatch" + during(),
+    c19_fail(std::string("alloc|deallocate-size-mismatch|block-allocated-in-") + it->second.op,
              "allocated " + std::to_string(it->second.bytes) + " bytes (elem " + std::to_string(it->second.elem) + "), deallocate says " +
              std::to_string(n) + " x " + std::to_string(elem) + " = " + std::to_string(bytes) + " bytes");
   } else if (it->second.elem != elem) {
